@@ -56,6 +56,11 @@ def check(rep, ex: Explorer, cls: str, strict=True, extended=True, keys=False, f
                 lit = not k.startswith("('d'")
                 fresh = (not lit) and _fresh_key(k)
                 if not lit and not fresh:
+                    cx = _colliding_key(k)
+                    if cx:
+                        rep.violation("KEY.no-reserved", site, "negated-query key", "the negated query is stored under a key that cannot collide with a key of the base (a collision overwrites a conditional of the base)",
+                                      extracted=f"key {cx[0]}: collides for a base {cx[1]}", required="a key provably outside the base's keys", function=site)
+                        continue
                     raise AnalysisError(f"{site}: cannot tell whether the key {k[:120]} of the negated query is outside the base's keys")
                 rep.check(not lit, "KEY.no-reserved", site, "negated-query key", "the negated query is stored under a key that cannot collide with a key of the base",
                           extracted=f"literal key {k}" if lit else "below the minimum / above the maximum of the base's keys", required="a key provably outside the base's keys", function=site)
@@ -118,6 +123,22 @@ def _show_cond(d):
 
         return f"(B:{show_canon(d[2])} | A:{show_canon(d[1])})"
     return repr(d)
+
+
+def _colliding_key(krepr: str):
+    """A key expression that provably can collide: len(keys)+c / len(keys)-c (the base may be keyed by any integers)."""
+    import ast as _ast
+
+    try:
+        d = _ast.literal_eval(krepr)
+    except Exception:
+        return None
+    if not (isinstance(d, tuple) and d[0] == "d" and isinstance(d[1], tuple) and d[1][0] == "lin"):
+        return None
+    terms, const = d[1][1]
+    if len(terms) == 1 and terms[0][1] == 1 and isinstance(terms[0][0], tuple) and terms[0][0][0] == "len" and "('keys', 'D')" in repr(terms[0][0]):
+        return (f"len(conditionals){const:+d}", f"of n conditionals one of which is keyed n{const:+d}")
+    return None
 
 
 def _fresh_key(krepr: str) -> bool:
